@@ -13,7 +13,12 @@ objects write them to an output store (`List Node`, again topologically ordered:
 when the Python object is created or, for the in-place transformers, when it is rewritten).
 
 Names are `List Char` (the property is about strings: `str.lstrip`), payloads are interned by the
-harness (`atom 0` = `None`); `fused` is the payload a fusion callback builds from two payloads.  Python exceptions are `Except Err`.
+harness (`atom 0` = `None`); `fused` is the payload a fusion callback builds from two payloads.
+Python exceptions are `Except Err`.
+
+The model mirrors the code AFTER the four `fix:` commits of C11 (get_output before getattr in
+`__transform_output`, positional-only node parameter of the callbacks, `removeprefix` instead of
+`lstrip` in `Splicer.graph`, leaves of an expanded sink kept by `_Expander.graph`).
 -/
 namespace EkwVerif.Graph
 
@@ -94,6 +99,29 @@ def denOut (ns : List Node) (r : Ref) : Option (Name × Term) := (den ns r.1).ma
 
 /-- What the sinks of a graph compute. -/
 def Graph.sinkDen (g : Graph) : List (Option Term) := g.sinks.map (den g.nodes)
+
+/-! ## Denotation under an interpretation of the payloads (needed for fusion: a fused payload is a
+different term, it denotes the same VALUES) -/
+
+/-- An interpretation: what a payload computes at each output from the values at its inputs. -/
+abbrev Interp (V : Type) := Payload → (Name → Option V) → Name → V
+
+/-- Value of a node at each output, given what every `Output` it may refer to carries. -/
+def nodeVal {V : Type} (I : Interp V) (env : Ref → Option V) (n : Node) : Name → V :=
+  fun o => I n.payload (fun k => (n.inputs.lookup k).bind env) o
+
+/-- the values carried by the outputs of already evaluated nodes -/
+def envOf {V : Type} (acc : List (Name → V)) : Ref → Option V :=
+  fun r => (acc[r.1]?).map fun f => f r.2
+
+def evalFrom {V : Type} (I : Interp V) (acc : List (Name → V)) : List Node → List (Name → V)
+  | [] => acc
+  | n :: rest => evalFrom I (acc ++ [nodeVal I (envOf acc) n]) rest
+
+def evalAll {V : Type} (I : Interp V) (ns : List Node) : List (Name → V) := evalFrom I [] ns
+
+/-- `eval I ns i o` = the value at output `o` of node `i`. -/
+def eval {V : Type} (I : Interp V) (ns : List Node) (i : Nat) : Option (Name → V) := (evalAll I ns)[i]?
 
 /-! ## Well-formedness (what `Node(...)` / `get_output` guarantee by construction) -/
 
@@ -412,13 +440,16 @@ def prefixed (name nm : Name) : Name := prefixOf name ++ nm
 
 def mapValues (m : List (Name × Name)) : List Name := m.map (·.2)
 
+/-- `Splicer.outputs`: `{o: o}` without an output map, `{o: output_map.get(o, o)}` with one -/
+def outputsMap (outputs : List Name) (outputMap : Option (List (Name × Name))) : List (Name × Name) :=
+  match outputMap with
+  | none => outputs.map fun o => (o, o)
+  | some om => outputs.map fun o => (o, (om.lookup o).getD o)
+
 /-- `Splicer.__init__`: `KeyError` if the input map names an input the node does not have. -/
 def splicerInit (name : Name) (inputs : List (Name × Ref)) (inputMap : Option (List (Name × Name)))
     (outputs : List Name) (outputMap : Option (List (Name × Name))) : Except Err SplicerCfg :=
-  let outs : List (Name × Name) :=
-    match outputMap with
-    | none => outputs.map fun o => (o, o)
-    | some om => outputs.map fun o => (o, (om.lookup o).getD o)
+  let outs := outputsMap outputs outputMap
   match inputMap with
   | none => .ok { name := name, inputs := inputs, outputs := outs }
   | some im =>
